@@ -9,6 +9,7 @@ import (
 	"github.com/uhppoted/uhppote-core/types"
 	"github.com/uhppoted/uhppote-core/uhppote"
 
+	"verif/harness/ev"
 	"verif/harness/memdrv"
 )
 
@@ -21,6 +22,37 @@ type DeviceCfg struct {
 	Protocol string   `json:"protocol"`
 	Doors    []string `json:"doors,omitempty"`
 	ViaNew   bool     `json:"via_new,omitempty"` // build with uhppote.NewDevice (normalises the protocol) instead of a struct literal
+	// TZ is the controller's configured time zone: "" = as before (time.UTC in a literal, nil through NewDevice), "nil",
+	// "Local", "UTC", a fixed offset "+hh:mm" / "-hh:mm", or an IANA name. No listed property lets the wire bytes, the
+	// routing or a decoded value depend on it.
+	TZ string `json:"tz,omitempty"`
+}
+
+// Loc resolves a TZ string ("" -> def).
+func Loc(tz string, def *time.Location) *time.Location {
+	switch tz {
+	case "":
+		return def
+	case "nil":
+		return nil
+	case "Local":
+		return time.Local
+	case "UTC":
+		return time.UTC
+	}
+	if len(tz) == 6 && (tz[0] == '+' || tz[0] == '-') && tz[3] == ':' {
+		h := int(tz[1]-'0')*10 + int(tz[2]-'0')
+		m := int(tz[4]-'0')*10 + int(tz[5]-'0')
+		secs := h*3600 + m*60
+		if tz[0] == '-' {
+			secs = -secs
+		}
+		return time.FixedZone(tz, secs)
+	}
+	if loc, err := time.LoadLocation(tz); err == nil {
+		return loc
+	}
+	return def
 }
 
 type ClientCfg struct {
@@ -34,6 +66,7 @@ type ClientCfg struct {
 	ListenPort    uint16      `json:"listen_port"`
 	TimeoutMs     int         `json:"timeout_ms"`
 	Devices       []DeviceCfg `json:"devices"`
+	Debug         bool        `json:"debug,omitempty"` // debug=true: the library prints hex dumps (stdout is muted)
 }
 
 func (d DeviceCfg) Device() uhppote.Device {
@@ -43,9 +76,9 @@ func (d DeviceCfg) Device() uhppote.Device {
 	}
 	doors := append([]string(nil), d.Doors...)
 	if d.ViaNew {
-		return uhppote.NewDevice(d.Name, d.Serial, addr, d.Protocol, doors, nil)
+		return uhppote.NewDevice(d.Name, d.Serial, addr, d.Protocol, doors, Loc(d.TZ, nil))
 	}
-	return uhppote.Device{Name: d.Name, DeviceID: d.Serial, Address: addr, Doors: doors, TimeZone: time.UTC, Protocol: d.Protocol}
+	return uhppote.Device{Name: d.Name, DeviceID: d.Serial, Address: addr, Doors: doors, TimeZone: Loc(d.TZ, time.UTC), Protocol: d.Protocol}
 }
 
 func (c ClientCfg) Devices_() []uhppote.Device {
@@ -80,16 +113,18 @@ func Mem(c ClientCfg) (uhppote.IUHPPOTE, *memdrv.Driver) {
 
 // MemWith is Mem with a caller-owned device slice (C17 mutates it afterwards).
 func MemWith(c ClientCfg, devices []uhppote.Device) (uhppote.IUHPPOTE, *memdrv.Driver) {
+	ev.MuteLibraryStdout()
 	d := memdrv.New()
 	bind, bcast, listen, timeout := c.addrs()
-	u := uhppote.NewUHPPOTEWithDriver(bind, bcast, listen, timeout, devices, false, func(uhppote.Driver) uhppote.Driver { return d })
+	u := uhppote.NewUHPPOTEWithDriver(bind, bcast, listen, timeout, devices, c.Debug, func(uhppote.Driver) uhppote.Driver { return d })
 	return u, d
 }
 
 // Real builds a client on the library's own UDP/TCP driver.
 func Real(c ClientCfg) uhppote.IUHPPOTE {
+	ev.MuteLibraryStdout()
 	bind, bcast, listen, timeout := c.addrs()
-	return uhppote.NewUHPPOTE(bind, bcast, listen, timeout, c.Devices_(), false)
+	return uhppote.NewUHPPOTE(bind, bcast, listen, timeout, c.Devices_(), c.Debug)
 }
 
 // Route is the reference routing decision (C06): which driver method and destination the
